@@ -82,8 +82,6 @@ def wire_devs(trace, is_client):
             continue
         if s.get('unopened'):
             if type(f) in REQ:
-                if s['own_cancel']:
-                    devs.append('C08:request-frame-sent-after-own-CANCEL')
                 s.pop('unopened')
                 s['model'] = REQ[type(f)]
             continue
@@ -106,7 +104,7 @@ def wire_devs(trace, is_client):
         if s['own_cancel'] and side == 'req':
             devs.append('C08:%s:req:frame-after-own-CANCEL' % model + ('' if model == 'ch' else ':' + type(f).__name__))
             continue
-        if s['own_complete'] and s['peer_complete'] and not (model in ('rr', 'rs') and side == 'req'):
+        if s['own_complete'] and (s['peer_complete'] or (side == 'req' and s['peer_terminal'])):
             devs.append('C08:%s:%s:frame-after-both-directions-completed:%s' % (model, side, type(f).__name__))
             continue
         if not isinstance(f, ALLOWED[(model, side)]):
